@@ -98,6 +98,84 @@ def _ramp_in_progress(ctx):
            ok_detail="%d test(s), all '%s'" % (len(sites), next(iter(dirs))))
 
 
+rule("C06.k", "the ramp row for the first step is the t = 0 instance of the row built in the loop over t >= 1: every family of columns "
+              "(dispatch, heat, on, start, shutdown) whose index is non-negative at t = 0 also occurs in the first-step row of the same type",
+     floor=2)
+
+
+def _first_step_rows(ctx):
+    p = ctx.p
+    fn = next((f for f in p.all_functions() if f.qualname == "CHPAsset._add_constraints_for_ramp"), None)
+    if fn is None:
+        ctx.ob("C06.k", "CHPAsset", "ramp rows", None, "CHPAsset._add_constraints_for_ramp not found")
+        return
+    loops = [s for s in au.walk_stmts(fn.body) if isinstance(s, ast.For) and isinstance(s.target, ast.Name) and isinstance(s.iter, ast.Call)
+             and au.call_name(s.iter) == "range" and len(s.iter.args) == 2 and au.const_num(s.iter.args[0]) == 1]
+    if not loops:
+        ctx.ob("C06.k", fn, "ramp rows", None, "loop over t >= 1 not found")
+        return
+    lp = loops[0]
+    tvar = lp.target.id
+
+    def rows(stmts):
+        """[(letter, [(index expr, stmt)])]: a row starts with `<a> = lil_matrix(..)` and ends with `cType += '<letter>'`."""
+        out, cur = [], None
+        for st in stmts:
+            if isinstance(st, ast.Assign) and isinstance(st.value, ast.Call) and au.method_name(st.value) == "lil_matrix" and isinstance(st.targets[0], ast.Name):
+                cur = [st.targets[0].id, []]
+                continue
+            if cur is None:
+                continue
+            for x in au.walk_stmts([st]):
+                if isinstance(x, ast.Assign) and isinstance(x.targets[0], ast.Subscript) and au.base_name(x.targets[0]) == cur[0] \
+                        and isinstance(x.targets[0].slice, ast.Tuple) and len(x.targets[0].slice.elts) == 2:
+                    cur[1].append((x.targets[0].slice.elts[1], x))
+                if isinstance(x, ast.AugAssign) and au.U(x.target).endswith("cType") and au.const_str(x.value) is not None:
+                    out.append((au.const_str(x.value), cur[1]))
+                    cur = None
+                    break
+        return out
+
+    def family(e, zero):
+        """(family, constant part) of a column index with the loop variables in `zero` set to 0."""
+        ev = lf.LinEval(lambda x: au.U(x) if isinstance(x, (ast.Name, ast.Attribute)) else None)
+        f = ev.ev(e)
+        if f is None:
+            return None
+        f = {k: v for k, v in f.items() if k not in zero}
+        base = sorted(k for k in f if k != lf.ONE)
+        if len(base) > 1:
+            return None
+        return (base[0] if base else "dispatch"), f.get(lf.ONE, 0)
+
+    inner_vars = {l.target.id for l in au.walk_stmts(lp.body) if isinstance(l, ast.For) and isinstance(l.target, ast.Name)}
+    in_loop = rows(lp.body)
+    after = [s for s in fn.body if s.lineno > lp.lineno] if any(lp is x for x in fn.body) else \
+        [s for par in [p.parent(lp)] for s in getattr(par, "body", []) if s.lineno > lp.lineno]
+    first = rows(after)
+    if not in_loop or not first:
+        ctx.ob("C06.k", fn, "ramp rows", None, "row blocks not recognised (loop: %d, first step: %d)" % (len(in_loop), len(first)))
+        return
+    for letter, cols in in_loop:
+        fr = [c for l, c in first if l == letter]
+        if not fr:
+            ctx.ob("C06.k", fn, "first-step row of type %s" % letter, False, "the loop builds '%s' rows for t >= 1 but there is no first-step row of that type" % letter, node=lp)
+            continue
+        have = {family(e, {tvar} | inner_vars)[0] for e, _ in fr[0] if family(e, {tvar} | inner_vars)}
+        need = {}
+        for e, st in cols:
+            fm = family(e, {tvar} | inner_vars)
+            if fm and fm[1] >= 0:
+                need.setdefault(fm[0], st)
+        missing = sorted(k for k in need if k not in have)
+        ctx.ob("C06.k", fn, "first-step '%s' row has the columns of the row for t >= 1" % letter, not missing,
+               "for t >= 1 the '%s' row has a column at %s (line %s), whose index is non-negative at t = 0 as well, but the row for the first "
+               "step has no such column: the relaxation / coupling it carries is missing in the first step only - a plant that is off can "
+               "start in step 1 along its start ramp (0 -> 2 with ramp 1) but not in step 0, where the ordinary ramp applies unrelaxed" % (
+                   letter, ", ".join(missing), ", ".join(str(need[k].lineno) for k in missing)), node=(need[missing[0]] if missing else lp),
+               ok_detail="families %s" % sorted(need))
+
+
 def _block_slices(ctx):
     p = ctx.p
     n = 0
@@ -149,9 +227,10 @@ def _block_slices(ctx):
     return n
 
 
-@analysis("chp", ["C06.a", "C06.b", "C06.c", "C06.h", "C06.i"])
+@analysis("chp", ["C06.a", "C06.b", "C06.c", "C06.h", "C06.i", "C06.k"])
 def run(ctx):
     _ramp_in_progress(ctx)
+    _first_step_rows(ctx)
     n_h = _block_slices(ctx)
     ctx.require(n_h >= 1, "no block slice of the bound vectors found in the CHP classes", rules=['C06.h'])
     p = ctx.p
